@@ -833,6 +833,7 @@ struct Stats {
     restored_view_differs_from_current: AtomicU64,
     expected_failure_and_failed: AtomicU64,
     model_expected_success_but_failed: AtomicU64,
+    failed_examples: Mutex<Vec<String>>,
     per_class: Mutex<BTreeMap<String, [u64; 4]>>, // runs, exit 0, judged, view really changed
 }
 
@@ -1051,6 +1052,10 @@ fn exec_step(env: &Env, dir: &Path, parent: Option<&StateData>, lit: &LitStep, s
             stats.expected_failure_and_failed.fetch_add(1, Ordering::Relaxed);
         } else if expected.is_some() {
             stats.model_expected_success_but_failed.fetch_add(1, Ordering::Relaxed);
+            let mut ex = stats.failed_examples.lock().unwrap();
+            if ex.len() < 8 {
+                ex.push(format!("jj {} (in {}): {}", lit.args.join(" "), lit.cwd, out.stderr.lines().next().unwrap_or("")));
+            }
         }
     }
 
@@ -1378,6 +1383,7 @@ fn main() {
     extra.insert("op_revert_of_older_operation_not_judged".into(), json!(ld(&stats.unjudged_revert_of_older_op)));
     extra.insert("model_expected_failure_and_jj_failed".into(), json!(ld(&stats.expected_failure_and_failed)));
     extra.insert("model_expected_success_but_jj_failed".into(), json!(ld(&stats.model_expected_success_but_failed)));
+    extra.insert("model_expected_success_but_jj_failed_examples".into(), json!(stats.failed_examples.lock().unwrap().clone()));
     extra.insert(
         "per_command_class".into(),
         json!(per_class.iter().map(|(k, v)| (k.clone(), json!({"runs": v[0], "exit_0": v[1], "judged": v[2], "judged_and_view_changed": v[3]}))).collect::<BTreeMap<_, _>>()),
